@@ -2,6 +2,7 @@ package c06
 
 import (
 	"fmt"
+	"math/big"
 	"testing"
 
 	"github.com/idena-network/idena-go/blockchain/types"
@@ -89,6 +90,72 @@ func TestNoReplay(t *testing.T) {
 					evid.NonTrivial(fmt.Sprintf("%s|%s|type=%s|age=%d", h.W.P.Profile, class, sim.TxTypeNames[it.tx.Type], r.Head().Height()-it.height))
 					evid.Sample("replay", fmt.Sprintf("%s of %s first included at %d, re-offered at head %d", class, sim.TxTypeNames[it.tx.Type], it.height, r.Head().Height()))
 				}
+			}
+		}
+		// crafted bodies (a dishonest proposer bypasses the pool): fresh, correctly signed transactions that are
+		// out of sequence or signed for another epoch must make strict block processing fail, alone and behind the
+		// pool's valid transactions
+		prevBetween := opt.BetweenBlocks
+		opt.BetweenBlocks = func(h *sim.History) {
+			prevBetween(h)
+			w := h.W
+			r := w.Replicas[0]
+			s := r.ReadState()
+			for n := rapid.IntRange(0, 2).Draw(t, "crafted"); n > 0; n-- {
+				evid.Eval()
+				a := w.Actors[rapid.IntRange(0, len(w.Actors)-1).Draw(t, "craftSender")]
+				if s.State.GetBalance(a.Addr).Cmp(sim.Dna(1)) < 0 {
+					continue
+				}
+				epoch := s.State.Epoch()
+				next := s.State.GetNonce(a.Addr) + 1
+				if s.State.GetEpoch(a.Addr) < epoch {
+					next = 1
+				}
+				kind := rapid.SampledFrom([]string{"future-epoch-nonce1", "future-epoch-next", "nonce-gap", "nonce-gap-big", "nonce-zero", "past-epoch", "far-future-epoch"}).Draw(t, "craftKind")
+				tx := &types.Transaction{Type: types.SendTx, Epoch: epoch, AccountNonce: next, To: &w.Actors[0].Addr, Amount: big.NewInt(1), MaxFee: sim.Dna(100)}
+				switch kind {
+				case "future-epoch-nonce1":
+					tx.Epoch, tx.AccountNonce = epoch+1, 1
+				case "future-epoch-next":
+					tx.Epoch = epoch + 1
+				case "nonce-gap":
+					tx.AccountNonce = next + 1
+				case "nonce-gap-big":
+					tx.AccountNonce = next + uint32(rapid.IntRange(2, 1000).Draw(t, "gap"))
+				case "nonce-zero":
+					tx.AccountNonce = 0
+				case "past-epoch":
+					if epoch == 0 {
+						continue
+					}
+					tx.Epoch = epoch - 1
+				case "far-future-epoch":
+					tx.Epoch = epoch + uint16(rapid.IntRange(2, 60000).Draw(t, "epochJump"))
+				}
+				signed, _ := types.SignTx(tx, a.Key)
+				bodies := [][]*types.Transaction{{signed}}
+				var pend []*types.Transaction
+				for _, p := range r.Pool.BuildBlockTransactions() {
+					if ps, _ := types.Sender(p); ps != a.Addr {
+						pend = append(pend, p)
+					}
+				}
+				if len(pend) > 0 {
+					bodies = append(bodies, append(append([]*types.Transaction{}, pend...), signed))
+				}
+				for _, body := range bodies {
+					cs, err := r.AppState.ForCheck(r.Head().Height())
+					if err != nil {
+						t.Fatalf("ForCheck: %v", err)
+					}
+					hdr := &types.Header{ProposedHeader: &types.ProposedHeader{Height: r.Head().Height() + 1, ParentHash: r.Head().Hash(), Time: w.Now().Unix(), ProposerPubKey: w.God.Pub}}
+					if _, err := r.Chain.VerifProcessTxs(cs, body, hdr); err == nil {
+						t.Fatalf("block processing accepted a body of %d txs with an out-of-sequence tx (%s: tx epoch %d nonce %d; state epoch %d, sender's next nonce %d)\nhistory:\n%s", len(body), kind, tx.Epoch, tx.AccountNonce, epoch, next, h.Summary())
+					}
+				}
+				evid.Count("crafted." + kind)
+				evid.NonTrivial(fmt.Sprintf("crafted|%s|%s|e%d", w.P.Profile, kind, epoch))
 			}
 		}
 		opt.AfterBlock = func(h *sim.History, blk *types.Block) {
